@@ -145,7 +145,55 @@ _import_module = Contract(
              '"load-builtin" in EFFECTS and "find" not in EFFECTS and "parse" not in EFFECTS)'],
 )
 
+def _replay_get_env(inp):
+    """a project directory that contains what looks like a virtualenv (.venv / venv with pyvenv.cfg and bin/python)"""
+    from pyvc.replay import run_real
+    import os
+    import tempfile
+    import shutil
+    import jedi.api.project as pm
+    d = tempfile.mkdtemp(prefix='c12env_', dir='/var/tmp')
+    calls = []
+    real_create, real_default = pm.create_environment, pm.get_cached_default_environment
+    pm.create_environment = lambda path, **kw: calls.append(('create', str(path))) or ('env-for', str(path))
+    pm.get_cached_default_environment = lambda: calls.append(('default',)) or 'DEFAULT'
+    try:
+        for name in ('.venv', 'venv'):
+            os.makedirs(os.path.join(d, name, 'bin'))
+            open(os.path.join(d, name, 'pyvenv.cfg'), 'w').write('home = /usr/bin\n')
+            os.symlink('/usr/bin/python3', os.path.join(d, name, 'bin', 'python'))
+        pr = pm.Project(d, environment_path=inp.get('environment_path'))
+        out = run_real(lambda: (pr.get_environment(), list(calls)))
+        exp = ('DEFAULT', [('default',)]) if inp.get('environment_path') is None else \
+            (('env-for', inp['environment_path']), [('create', inp['environment_path'])])
+        return {'EXPECTED': exp}, out
+    finally:
+        pm.create_environment, pm.get_cached_default_environment = real_create, real_default
+        shutil.rmtree(d, ignore_errors=True)
+
+
+_get_env = Contract(
+    id='C12.Project.get_environment', prop='C12',
+    clause='the interpreter that serves as helper process is the one the USER configured (environment_path) or jedi\'s '
+           'default environment - never something found inside the analysed project (a .venv / venv directory of the '
+           'project would run the project\'s site-packages .pth files at start-up)',
+    file='jedi/api/project.py', qualname='Project.get_environment',
+    params={'self': Obj('ProjEnv')}, families=['ProjEnv', 'EnvObj'], ret=Obj('EnvObj'),
+    ensures=[
+        'implies(old(self._environment) is not None, result == old(self._environment))',
+        'implies(old(self._environment) is None and self._environment_path is not None, '
+        'result == create_environment(the(self._environment_path), False))',
+        'implies(old(self._environment) is None and self._environment_path is None, '
+        'result == get_cached_default_environment())',
+        'self._environment is not None and the(self._environment) == result',
+    ],
+    witness={}, replay=_replay_get_env, concrete_only=True, concrete_ensures=['result == EXPECTED'],
+    witness_library=[{}, {'environment_path': '/opt/py/bin/python'}],
+)
+
 FAMILIES = [
+    Family('ProjEnv', fields={'_environment': Opt(Obj('EnvObj'))}, attrs={'_environment_path': Opt(STR), '_path': PATH}),
+    Family('EnvObj'),
     Family('SysMod', fields={'path': Seq(STR), 'modules': DictT(STR, ANY)}),
     Family('IS12', attrs={'project': Obj('Project12'), 'compiled_subprocess': Obj('Sub12'), 'grammar': ANY},
            methods={'get_sys_path': FnSpec('InferenceState.get_sys_path', ret=Seq(STR), pure=True, assumed=False,
@@ -166,7 +214,7 @@ FAMILIES = [
 
 # the base path is ALSO the whitelist of directories compiled modules may be imported from: whoever composes the effective
 # path must not extend that (memoised) list in place - Project._get_sys_path under its C20 contract, ownership frame
-CONTRACTS = [_load_module, _load_builtin, _get_module_info, _import_module, _c20._base, _c20._get_sys_path]
+CONTRACTS = [_load_module, _load_builtin, _get_module_info, _import_module, _c20._base, _c20._get_sys_path, _get_env]
 
 
 def _find_module_impl(V, st, self_val, args, kwargs, node):
@@ -202,6 +250,11 @@ def register(reg):
         defaults={'cat': None, 'stacklevel': 1}, ret=None, assumed=True, raises=['Exception'],
         note='raises when warnings are turned into errors (-W error, pytest filterwarnings)'))})
     reg.names['UserWarning'] = MCls('UserWarning')
+    reg.names['create_environment'] = FnSpec('create_environment', params=[('path', STR), ('safe', BOOL)],
+                                             defaults={'safe': True}, ret=Obj('EnvObj'), pure=True, assumed=True,
+                                             note='environment for an interpreter path given by the user')
+    reg.names['get_cached_default_environment'] = FnSpec('get_cached_default_environment', params=[], ret=Obj('EnvObj'),
+                                                         pure=True, assumed=True, note='jedi\'s default environment')
     reg.names['traceback'] = MNS('traceback', {'format_exc': MFn('spec', 'format_exc', spec=FnSpec(
         'traceback.format_exc', ret=STR, assumed=True))})
     reg.names['create_access_path'] = FnSpec('create_access_path', params=[('inference_state', ANY), ('obj', ANY)],
